@@ -1,1 +1,67 @@
-// replay hooks for src/sstable/table.rs (included as a child module `verif_replay` of that file)
+// Bounded-check driver for src/sstable/table.rs (child module `verif_replay`).
+// C11: after any sequence of TableWriter::add, the table's oldest_vlog_file_id is the MINIMUM file id
+// among the value pointers added (0 when there is none).
+// Bound (stated): sequences of <= 4 entries, each an inline value or a pointer into vlog file 1..=3
+// (all 4^1+4^2+4^3+4^4 = 340 sequences), keys ascending, default Options.
+use super::*;
+use crate::vlog::{ValueLocation, ValuePointer};
+use crate::{InternalKeyKind, Options};
+
+#[test]
+fn min_vlog_file_id_enum() {
+	let mut cases = 0u64;
+	let mut nontrivial = std::collections::HashSet::new();
+	let mut failures: Vec<String> = Vec::new();
+	for n in 1..=4usize {
+		for c in 0..4usize.pow(n as u32) {
+			let mut ids = Vec::new();
+			let mut x = c;
+			for _ in 0..n {
+				ids.push((x % 4) as u32); // 0 = inline value, 1..3 = pointer into that vlog file
+				x /= 4;
+			}
+			cases += 1;
+			let opts = Arc::new(Options::new());
+			let mut buf = Vec::new();
+			let field_after_adds;
+			{
+				let mut w = TableWriter::new(&mut buf, 7, Arc::clone(&opts), 0);
+				for (i, &id) in ids.iter().enumerate() {
+					let key = InternalKey::new(format!("key{i:02}").into_bytes(), (i + 1) as u64, InternalKeyKind::Set, 0);
+					let val = if id == 0 {
+						ValueLocation::with_inline_value(vec![i as u8; 3]).encode()
+					} else {
+						ValueLocation::with_pointer(ValuePointer::new(id, 64 * i as u64, 5, 3, 0xabcd)).encode()
+					};
+					w.add(key, &val).unwrap();
+				}
+				field_after_adds = w.min_vlog_file_id;
+				w.finish().unwrap();
+			}
+			let size = buf.len() as u64;
+			let file: Arc<dyn File> = Arc::new(buf);
+			let t = Table::new(7, opts, file, size).unwrap();
+			let want = ids.iter().copied().filter(|&i| i > 0).min();
+			let got = t.meta.properties.oldest_vlog_file_id;
+			if ids.iter().filter(|&&i| i > 0).count() >= 2 {
+				nontrivial.insert(ids.clone());
+			}
+			if (field_after_adds != want || got != want.unwrap_or(0) as u64) && failures.len() < 5 {
+				failures.push(format!(
+					"{{\"pointer_file_ids_in_add_order(0=inline)\":{:?},\"expected_oldest\":{},\"writer_field\":\"{:?}\",\"table_oldest_vlog_file_id\":{}}}",
+					ids,
+					want.unwrap_or(0),
+					field_after_adds,
+					got
+				));
+			}
+		}
+	}
+	println!(
+		"REPLAY-RESULT {{\"driver\":\"sstable::table::min_vlog_file_id_enum\",\"cases\":{},\"distinct_nontrivial\":{},\"failures\":[{}]}}",
+		cases,
+		nontrivial.len(),
+		failures.join(",")
+	);
+	assert!(failures.is_empty());
+}
